@@ -298,6 +298,13 @@ def p_event(e):
         return 'ERestart'
     if k == 'foreign':
         return 'EForeign'
+    if k == 'make':
+        return '(EMake %s %s %s %s %s %s %s)' % (e['kind'], p_ver(e['ver']), p_s(e['owner']), cp.z(e['now']), cp.byts(e['mat']),
+                                                cp.lst(e['attrs'], p_tattr), cp.z(e['obs']))
+    if k == 'makepair':
+        return '(EMakePair %s %s %s %s %s %s %s %s %s %s (%s, %s))' % (
+            p_ver(e['ver']), p_s(e['owner']), cp.z(e['now']), cp.z(e['fu']), cp.byts(e['mu']), cp.z(e['fr']), cp.byts(e['mr']),
+            cp.lst(e['lc'], p_tattr), cp.lst(e['lu'], p_tattr), cp.lst(e['lr'], p_tattr), cp.z(e['obs'][0]), cp.z(e['obs'][1]))
     return 'EOther'
 
 
@@ -1032,7 +1039,7 @@ def run_history(ctx, rng, der, hid, n_events, big, forced=None):
                         okg, created = st.wrapped_get_batch(ver, rng.choice(targets), wrapper['uid'])
                         events.append({'e': 'other'})
                         if created is not None:
-                            events.append({'e': 'foreign'})
+                            events.extend(make_events(st, 'KCreate', ver, st.eng.clock.t, KDRV_CREATE_TEMPLATE, created)[0])
                         ctx.count('batch.wrapped-get+create.%s' % ('ok' if okg else 'refused'))
             else:
                 st.other(ver, rng)
@@ -1055,6 +1062,25 @@ def run_history(ctx, rng, der, hid, n_events, big, forced=None):
     finally:
         st.close()
     return events
+
+
+def make_events(st, kind, ver, now, attrs, uid):
+    """The model event of a Create / DeriveKey: the generated material is read back with Get and handed to the model as an input."""
+    got = st.get((1, 2), uid)
+    if got is None or 'kb' not in got:
+        return [{'e': 'foreign'}], False
+    return [{'e': 'make', 'kind': kind, 'ver': ver, 'owner': 'alice', 'now': now, 'mat': got['kb']['value'], 'attrs': attrs, 'obs': uid}], True
+
+
+def pair_events(st, ver, now, lc, lu, lr, pub, priv):
+    gu, gr = st.get((1, 2), pub), st.get((1, 2), priv)
+    if gu is None or gr is None:
+        return [{'e': 'foreign'}, {'e': 'foreign'}], False
+    return [{'e': 'makepair', 'ver': ver, 'owner': 'alice', 'now': now, 'fu': gu['kb']['fmt'], 'mu': gu['kb']['value'], 'fr': gr['kb']['fmt'],
+             'mr': gr['kb']['value'], 'lc': lc, 'lu': lu, 'lr': lr, 'obs': (pub, priv)}], True
+
+
+KDRV_CREATE_TEMPLATE = [{'kind': 'alg', 'idx': None, 'z': 3}, {'kind': 'len', 'idx': None, 'z': 256}, {'kind': 'mask', 'idx': None, 'z': 12}]
 
 
 def scenario_history(ctx, der):
@@ -1114,7 +1140,7 @@ def scenario_history(ctx, der):
             okg, created = st.wrapped_get_batch(ver, b, w)
             events.append({'e': 'other'})
             if created is not None:
-                events.append({'e': 'foreign'})
+                events.extend(make_events(st, 'KCreate', ver, st.eng.clock.t, KDRV_CREATE_TEMPLATE, created)[0])
             ctx.count('scenario.batch.wrapped-get+create.%s' % ('ok' if okg else 'refused'))
         read_all('scenario: after the batch [wrapped Get, Create]', skip=(a,))
         st.eng.restart()
@@ -1137,7 +1163,7 @@ def client_history(ctx, rng, der, hid, n_calls):
     st = Stack(ctx, der, chunk=rng.choice([7, 4096]))
     wver = rng.choice(VERS)
     cl = st.clients[wver]
-    events, regs, derivable = [], {}, []
+    events, regs, derivable, modelled = [], {}, [], set()
     members = list(M)
 
     def g_masks():
@@ -1172,6 +1198,8 @@ def client_history(ctx, rng, der, hid, n_calls):
             reg = regs[uid]
             for ver in [wver] + rng.sample(VERS, 2):
                 obs = st.attrs(ver, uid)
+                if uid in modelled:
+                    events.append({'e': 'attrs', 'ver': ver, 'uid': uid, 'obs': obs})
                 oracle_attrs(ctx, reg, obs, ver, reg['state'], when, st.last_err)
                 ctx.cov['evaluations'] += 1
             ctx.case_seen(('client-readback', hid, uid, when), nontrivial=True)
@@ -1183,6 +1211,8 @@ def client_history(ctx, rng, der, hid, n_calls):
             try:
                 if r < 0.45:
                     masks, name, pol = g_masks(), (g_shared(rng) if rng.random() < 0.6 else None), g_policy()
+                    if masks is not None and M.DERIVE_KEY not in masks and rng.random() < 0.4:
+                        masks.append(M.DERIVE_KEY)
                     alg, length = rng.choice([(E.CryptographicAlgorithm.AES, 128), (E.CryptographicAlgorithm.AES, 192), (E.CryptographicAlgorithm.AES, 256),
                                               (E.CryptographicAlgorithm.CAMELLIA, 128), (E.CryptographicAlgorithm.TRIPLE_DES, 192)])
                     keep = None if masks is None else list(masks)
@@ -1190,13 +1220,17 @@ def client_history(ctx, rng, der, hid, n_calls):
                         call_no, alg.name, length, pol, name, None if masks is None else [m.name for m in masks])
                     uid = int(cl.create(alg, length, operation_policy_name=pol, name=name, cryptographic_usage_mask=masks))
                     unchanged(keep, masks, call)
-                    events.append({'e': 'foreign'})
                     attrs = [{'kind': 'mask', 'idx': None, 'z': M.ENCRYPT.value | M.DECRYPT.value | mask_int(masks)}]
                     if name:
                         attrs.append({'kind': 'name', 'idx': None, 'v': name, 't': 1})
                     if pol:
                         attrs.append({'kind': 'policy', 'idx': None, 's': pol})
                     note(uid, 'CSym', alg.value, length, attrs, call)
+                    evs, ok_m = make_events(st, 'KCreate', wver, st.eng.clock.t,
+                                            [{'kind': 'alg', 'idx': None, 'z': alg.value}, {'kind': 'len', 'idx': None, 'z': length}] + attrs, uid)
+                    events.extend(evs)
+                    if ok_m:
+                        modelled.add(uid)
                     if M.DERIVE_KEY in (masks or []):
                         derivable.append(uid)
                     ctx.count('client.create')
@@ -1210,15 +1244,21 @@ def client_history(ctx, rng, der, hid, n_calls):
                     pub, priv = cl.create_key_pair(E.CryptographicAlgorithm.RSA, 1024, operation_policy_name=pol, public_name=pn,
                                                    public_usage_mask=pm, private_name=vn, private_usage_mask=vm)
                     unchanged(keep, (pm, vm), call)
-                    events.append({'e': 'foreign'})
-                    events.append({'e': 'foreign'})
+                    tm = {}
                     for uid, cls, ms, nm in ((int(pub), 'CPub', pm, pn), (int(priv), 'CPriv', vm, vn)):
                         attrs = [{'kind': 'mask', 'idx': None, 'z': mask_int(ms)}]
                         if nm:
                             attrs.append({'kind': 'name', 'idx': None, 'v': nm, 't': 1})
+                        tm[cls] = list(attrs)
                         if pol:
                             attrs.append({'kind': 'policy', 'idx': None, 's': pol})
                         note(uid, cls, E.CryptographicAlgorithm.RSA.value, 1024, attrs, call)
+                    lc = ([{'kind': 'policy', 'idx': None, 's': pol}] if pol else []) + [
+                        {'kind': 'alg', 'idx': None, 'z': E.CryptographicAlgorithm.RSA.value}, {'kind': 'len', 'idx': None, 'z': 1024}]
+                    evs, ok_m = pair_events(st, wver, st.eng.clock.t, lc, tm['CPub'], tm['CPriv'], int(pub), int(priv))
+                    events.extend(evs)
+                    if ok_m:
+                        modelled.update([int(pub), int(priv)])
                     ctx.count('client.create_key_pair')
                 elif r < 0.85:
                     masks = g_masks()
@@ -1255,6 +1295,7 @@ def client_history(ctx, rng, der, hid, n_calls):
                     if uid is not None:
                         regs[uid] = {'uid': uid, 'ver': wver, 'now': st.eng.clock.t, 'state': E.State.PRE_ACTIVE.value, 'attrs': attrs, 'call': call,
                                      'secret': secret}
+                        modelled.add(uid)
                         obs = st.get(rng.choice(VERS), uid)
                         events.append({'e': 'get', 'uid': uid, 'obs': obs})
                         oracle_get(ctx, regs[uid], obs, wver, 'client history %d %s' % (hid, call_no), st.last_err)
@@ -1265,14 +1306,24 @@ def client_history(ctx, rng, der, hid, n_calls):
                     length = rng.choice([128, 256])
                     call = '%s: derive_key(SYMMETRIC_KEY, [%d], HASH, sha256, cryptographic_length=%d, cryptographic_algorithm=AES, cryptographic_usage_mask=%r)' % (
                         call_no, base, length, None if masks is None else [m.name for m in masks])
-                    kw = {'cryptographic_length': length, 'cryptographic_algorithm': E.CryptographicAlgorithm.AES}
+                    to_secret = rng.random() < 0.4
+                    kw = {'cryptographic_length': length}
+                    if not to_secret:
+                        kw['cryptographic_algorithm'] = E.CryptographicAlgorithm.AES
                     if masks:
                         kw['cryptographic_usage_mask'] = masks
-                    uid = int(cl.derive_key(E.ObjectType.SYMMETRIC_KEY, [str(base)], E.DerivationMethod.HASH,
+                    uid = int(cl.derive_key(E.ObjectType.SECRET_DATA if to_secret else E.ObjectType.SYMMETRIC_KEY, [str(base)], E.DerivationMethod.HASH,
                                             {'cryptographic_parameters': {'hashing_algorithm': E.HashingAlgorithm.SHA_256}}, **kw))
-                    unchanged(keep, masks, call)
-                    events.append({'e': 'foreign'})
-                    note(uid, 'CSym', E.CryptographicAlgorithm.AES.value, length, [{'kind': 'mask', 'idx': None, 'z': mask_int(masks)}], call)
+                    unchanged(keep, masks, call + (' -> SECRET_DATA' if to_secret else ''))
+                    note(uid, 'CSecret' if to_secret else 'CSym', E.CryptographicAlgorithm.AES.value, length,
+                         [{'kind': 'mask', 'idx': None, 'z': mask_int(masks)}] if masks else [], call)
+                    evs, ok_m = make_events(st, 'KDeriveSecret' if to_secret else 'KDeriveSym', wver, st.eng.clock.t,
+                                            [{'kind': 'len', 'idx': None, 'z': length}]
+                                            + ([] if to_secret else [{'kind': 'alg', 'idx': None, 'z': E.CryptographicAlgorithm.AES.value}])
+                                            + ([{'kind': 'mask', 'idx': None, 'z': mask_int(masks)}] if masks else []), uid)
+                    events.extend(evs)
+                    if ok_m:
+                        modelled.add(uid)
                     ctx.count('client.derive_key')
             except Exception as e:
                 st.clients[wver].proxy.protocol.socket.rbuf = b''
@@ -1358,7 +1409,7 @@ def keypair_history(ctx, rng, der, hid, n_pairs):
     the private-key template with different values; each key must report the value of its own template if that template has the
     attribute, else the common one - right after creation, under other versions and after a re-open."""
     st = Stack(ctx, der, chunk=rng.choice([7, 4096]))
-    events, regs = [], {}
+    events, regs, modelled = [], {}, set()
     M = E.CryptographicUsageMask
     PLACES = [(), ('c',), ('u',), ('r',), ('c', 'u'), ('c', 'r'), ('u', 'r'), ('c', 'u', 'r')]
     try:
@@ -1410,8 +1461,10 @@ def keypair_history(ctx, rng, der, hid, n_pairs):
                 continue
             ctx.count('keypair.created')
             ctx.case_seen(('keypair', hid, k, call), nontrivial=True)
-            events.append({'e': 'foreign'})
-            events.append({'e': 'foreign'})
+            evs, ok_m = pair_events(st, ver, st.eng.clock.t, tmpl['c'], tmpl['u'], tmpl['r'], int(r.public_key_uuid), int(r.private_key_uuid))
+            events.extend(evs)
+            if ok_m:
+                modelled.update([int(r.public_key_uuid), int(r.private_key_uuid)])
             for uid, cls, own in ((int(r.public_key_uuid), 'CPub', 'u'), (int(r.private_key_uuid), 'CPriv', 'r')):
                 eff = []
                 for kind in ('name', 'group', 'asi', 'policy', 'sens', 'mask', 'alg', 'len'):
@@ -1423,14 +1476,22 @@ def keypair_history(ctx, rng, der, hid, n_pairs):
                              'secret': {'k': 'key', 'cls': cls, 'kb': {'alg': E.CryptographicAlgorithm.RSA.value, 'len': length}}}
             for uid in sorted(regs)[-2:]:
                 for v in [ver] + rng.sample(VERS, 2):
-                    oracle_attrs(ctx, regs[uid], st.attrs(v, uid), v, regs[uid]['state'], 'key pair history %d after %s' % (hid, call[:40]), st.last_err)
+                    obs = st.attrs(v, uid)
+                    if uid in modelled:
+                        events.append({'e': 'attrs', 'ver': v, 'uid': uid, 'obs': obs})
+                    oracle_attrs(ctx, regs[uid], obs, v, regs[uid]['state'], 'key pair history %d after %s' % (hid, call[:40]), st.last_err)
                     ctx.cov['evaluations'] += 1
         st.eng.restart()
         events.append({'e': 'restart'})
         for uid in sorted(regs):
             v = rng.choice(VERS)
-            oracle_attrs(ctx, regs[uid], st.attrs(v, uid), v, regs[uid]['state'], 'key pair history %d after re-opening the database' % hid, st.last_err)
+            obs = st.attrs(v, uid)
+            if uid in modelled:
+                events.append({'e': 'attrs', 'ver': v, 'uid': uid, 'obs': obs})
+            oracle_attrs(ctx, regs[uid], obs, v, regs[uid]['state'], 'key pair history %d after re-opening the database' % hid, st.last_err)
             obs = st.attr_list(v, uid)
+            if uid in modelled:
+                events.append({'e': 'attrlist', 'ver': v, 'uid': uid, 'obs': obs})
             exp = [a[0] for a in oracle_expected_attrs(v, uid, regs[uid]['now'], regs[uid]['state'], regs[uid]['secret'], regs[uid]['attrs'])]
             if obs is None or sorted(set(obs)) != sorted(set(exp)):
                 ctx.violation({'op': 'GET_ATTRIBUTE_LIST', 'otype': regs[uid]['secret']['cls']},
@@ -1638,6 +1699,9 @@ def run(ctx):
     for _, s, _ in corpus():
         convert_pair(ctx, s)
 
+    for h in hists:
+        for e in h:
+            ctx.count('model-event.%s' % (e['e'] + ('.' + e['kind'] if e['e'] == 'make' else '')))
     cases = [cp.lst(h, p_event) for h in hists]
     bad = ctx.run_cases('histories', HEADER, cases, 'check_history', shard=6,
                         what='srv_register / srv_get / srv_attrs / srv_attr_list / sql_out / step vs the real client-session-engine-SQLite stack')
